@@ -22,11 +22,12 @@ Record Variant := mkVariant {
   clear_resets_generation : bool;   (* TranspositionTable::clear() sets generation = 0 *)
   clear_clears_evalcache  : bool;   (* the Clear Hash listener empties EvalHashTables::evalHash *)
   evalkey_has_contempt    : bool;   (* Evaluate::evalPos mixes whiteContempt into the cache key *)
-  tbabort_drops_tb        : bool    (* updateTB uninstalls a partially generated tablebase (fix of F4) *)
+  tbabort_drops_tb        : bool;   (* updateTB uninstalls a partially generated tablebase (fix of F4) *)
+  go_resets_limits        : bool    (* EngineControl::computeTimeLimit assigns EVERY limit member on every go *)
 }.
 
-Definition current_code : Variant := mkVariant false false false false.
-Definition fixed_code   : Variant := mkVariant true true false false.
+Definition current_code : Variant := mkVariant false false false false true.
+Definition fixed_code   : Variant := mkVariant true true false false true.
 
 (** * Sparse maps N -> A with a default (absent = default) *)
 Section SMap.
